@@ -69,19 +69,20 @@ pub fn make_module() -> KMap {
                 let iterable = iterable.clone();
                 let iterator = ctx.vm.make_iterator(iterable)?;
 
-                {
-                    let mut list_data = l.data_mut();
-                    let (size_hint, _) = iterator.size_hint();
-                    list_data.reserve(size_hint);
+                // The values are collected before the list gets borrowed,
+                // the iterator might access the list while it's producing its output.
+                let (size_hint, _) = iterator.size_hint();
+                let mut values = Vec::with_capacity(size_hint);
 
-                    for value in iterator.map(collect_pair) {
-                        match value {
-                            KIteratorOutput::Value(value) => list_data.push(value.clone()),
-                            KIteratorOutput::Error(error) => return Err(error),
-                            _ => unreachable!(),
-                        }
+                for value in iterator.map(collect_pair) {
+                    match value {
+                        KIteratorOutput::Value(value) => values.push(value),
+                        KIteratorOutput::Error(error) => return Err(error),
+                        _ => unreachable!(),
                     }
                 }
+
+                l.data_mut().extend(values);
 
                 Ok(KValue::List(l))
             }
